@@ -331,26 +331,51 @@ func checkHandedOutOnce(c *core.Ctx, r *core.Report) {
 			continue
 		}
 		n++
+		// one iteration of the loop: is there a path from the header back to the header (or to a return) on which the
+		// block is appended but not recorded?  The order of the two within the iteration does not matter.
+		type st struct {
+			b        *ssa.BasicBlock
+			app, rec bool
+		}
 		var leak ssa.Instruction
-		core.WalkForwardEdges(fn, ci, func(in ssa.Instruction) bool {
-			if mu, ok := in.(*ssa.MapUpdate); ok && fromProcessed(mu.Map) {
-				if _, inner := mu.Value.Type().Underlying().(*types.Map); !inner {
-					return false
+		seen := map[st]bool{}
+		var work []st
+		for _, sc := range lp.Header.Succs {
+			if lp.Body[sc] {
+				work = append(work, st{sc, false, false})
+			}
+		}
+		for len(work) > 0 && leak == nil {
+			x := work[len(work)-1]
+			work = work[:len(work)-1]
+			if seen[x] {
+				continue
+			}
+			seen[x] = true
+			app, rec := x.app, x.rec
+			for _, in := range x.b.Instrs {
+				if in == ssa.Instruction(ci) {
+					app = true
+				}
+				if mu, ok := in.(*ssa.MapUpdate); ok && fromProcessed(mu.Map) {
+					if _, inner := mu.Value.Type().Underlying().(*types.Map); !inner {
+						rec = true
+					}
+				}
+				if _, ok := in.(*ssa.Return); ok && app && !rec {
+					leak = in
 				}
 			}
-			if ret, ok := in.(*ssa.Return); ok && leak == nil {
-				leak = ret
-			}
-			return true
-		}, func(from, to *ssa.BasicBlock) bool {
-			if to == lp.Header {
-				if leak == nil {
-					leak = from.Instrs[len(from.Instrs)-1]
+			for _, sc := range x.b.Succs {
+				if sc == lp.Header || !lp.Body[sc] {
+					if app && !rec && leak == nil {
+						leak = x.b.Instrs[len(x.b.Instrs)-1]
+					}
+					continue
 				}
-				return false
+				work = append(work, st{sc, app, rec})
 			}
-			return true
-		})
+		}
 		r.Check(leak == nil, "PAIR", fmt.Sprintf("%s:handed-out-block#%d-is-recorded", shortFn(fn), n), c.Pos(ci.Pos()),
 			"every path from the append to the next iteration records the block in processedBlocks",
 			"a block is added to the batch on a path that does not record it in processedBlocks: when a rotating segment is present in both snapshots the second request for the same segment key hands the block out again and every event of the block is returned twice")
